@@ -714,6 +714,7 @@ def run(rep, tier, seed):
     rep.extra["drawings_with_merged_entries"] = counters.get("drawings_with_merged_entries", 0)
     rep.extra["drawings_with_multiline_cells"] = counters.get("drawings_with_multiline_cells", 0)
     rep.extra["drawings_with_crlf_line_ends"] = counters.get("drawings_with_crlf", 0)
+    rep.extra["tables_with_blank_runs_inside_string_literals"] = counters.get("tables_with_blank_runs_inside_string_literals", 0)
     rep.extra["drawings_by_widest_cell"] = group("widest_cell:")
     rep.extra["orientations"] = group("orientation:")
     rep.extra["hit_policy_markers_by_orientation"] = group("marker:")
